@@ -128,6 +128,15 @@ def run(tier, replay):
             texts.append(("deep", "PRINT " + "(" * depth + "\r\n"))
             texts.append(("deep", "A = " + "F(" * depth + "1" + ")" * depth + "\r\n"))
             texts.append(("deep", "PRINT 1" + " + 1" * depth * 5 + "\r\n"))
+            # a parenthesis directly after a keyword operator / a sign / an array name, nested: time must stay bounded
+            texts.append(("deep", "PRINT " + "NOT(" * depth + "1" + ")" * depth + "\r\n"))
+            texts.append(("deep", "PRINT " + "1 AND(" * depth + "1" + ")" * depth + "\r\n"))
+            texts.append(("deep", "PRINT " + "2 MOD(" * depth + "1" + ")" * depth + "\r\n"))
+            texts.append(("deep", "PRINT " + "-(" * depth + "1" + ")" * depth + "\r\n"))
+            texts.append(("deep", "DIM A(5)\r\nPRINT " + "A(" * depth + "1" + ")" * depth + "\r\n"))
+            texts.append(("deep", "PRINT " + "LEN(STR$(" * depth + "1" + "))" * depth + "\r\n"))
+            texts.append(("deep", "".join("SELECT CASE %d\r\nCASE %d\r\n" % (k, k) for k in range(depth)) + "END SELECT\r\n" * depth))
+            texts.append(("deep", "".join("DO\r\n" for _ in range(depth)) + "LOOP\r\n" * depth))
     resps = pool.map([{"op": "run", "text": t, "upto": "lint"} for c, t in texts], timeout=15)
     recs, meta = [], {}
     for i, ((cls, t), resp) in enumerate(zip(texts, resps)):
